@@ -164,6 +164,7 @@ class D(Driver):
         use_outfile = rng.random() < 0.5
         env = dict(os.environ)
         env["PYTHONPATH"] = os.path.join(bootstrap.repo_root(), "src")
+        env["PYTHONUTF8"] = "1"  # documents may carry non-ASCII ids whatever the locale of the sandbox
         tmp = tempfile.mkdtemp(prefix="picomon-cli-", dir=os.environ.get("VERIF_SCRATCH", "/var/tmp"))
         try:
             args = [sys.executable, "-m", "picosvg.picosvg"]
@@ -177,14 +178,14 @@ class D(Driver):
             inp = None
             if not use_stdin:
                 inf = os.path.join(tmp, "in.svg")
-                with open(inf, "w") as fh:
+                with open(inf, "w", encoding="utf-8") as fh:
                     fh.write(doc)
                 args.append(inf)
             else:
                 inp = doc
             res["evals"] += 1
             bump(res["features"], "cli_runs")
-            p = subprocess.run(args, input=inp, capture_output=True, text=True, timeout=120, env=env)
+            p = subprocess.run(args, input=inp, capture_output=True, text=True, encoding="utf-8", timeout=120, env=env)
             st, lib = "exc", None
             stagemon.reset()
             try:
@@ -200,7 +201,7 @@ class D(Driver):
                     res["viol"].append(dict(rule="cli_vs_library", sig="cli_fails_library_converts", msg=f"CLI {args[3:]} failed ({p.stderr[-300:]}) but the library converts\nSOURCE: {doc[:1500]}",
                                             replay={"kind": "doc", "doc": doc, "ndigits": 3, "allow_text": at, "drop_unsupported": du}))
                 return
-            out = open(outp).read() if use_outfile else p.stdout
+            out = open(outp, encoding="utf-8").read() if use_outfile else p.stdout
             if st != "ok":
                 res["viol"].append(dict(rule="cli_vs_library", sig="cli_converts_library_fails", msg=f"CLI {args[3:]} succeeded but the library call raises\nSOURCE: {doc[:1500]}",
                                         replay={"kind": "doc", "doc": doc, "ndigits": 3, "allow_text": at, "drop_unsupported": du}))
